@@ -78,9 +78,11 @@ func checkC12(ctx *Ctx) {
 	}
 	defer srv.in.Close()
 	table := srv.in.S.VerifCommandTable()
-	sort.Slice(table, func(i, j int) bool { return table[i].Command+table[i].SubCommand < table[j].Command+table[j].SubCommand })
+	sort.Slice(table, func(i, j int) bool {
+		return table[i].Command+table[i].SubCommand < table[j].Command+table[j].SubCommand
+	})
 	// (a) per-command hostile argument vectors
-	per := ctx.N(40, 600)
+	per := ctx.N(120, 600)
 	for ti, t := range table {
 		if !ctx.Mine(ti) {
 			continue
@@ -122,8 +124,68 @@ func checkC12(ctx *Ctx) {
 		}
 		c.Close()
 	}
+	// (g) command and subcommand names that are themselves hostile (errors raised before any handler runs)
+	{
+		parents := []string{"", "PUBSUB", "ACL", "COMMAND", "CLIENT", "MODULE", "CONFIG", "OBJECT"}
+		names := append([]string{"NOSUCH\r\n+OK\r\n:1", "NO\nSUCH", "NO\rSUCH", "get\r\n", "\r\n$3\r\nfoo", "-ERR injected\r\n", "PING\r\nPING"}, c12Hostile[:len(c12Hostile)-2]...)
+		cs := 0
+		for _, par := range parents {
+			for _, nm := range names {
+				cs++
+				if !ctx.Mine(cs) {
+					continue
+				}
+				ctx.SetCurrent("C12 hostile command name")
+				c, err := Dial(srv.port)
+				if err != nil {
+					ctx.Inconclusive("dial")
+					return
+				}
+				argv := []string{nm, "k"}
+				if par != "" {
+					argv = []string{par, nm, "k"}
+				}
+				okx := c12Exchange(ctx, srv, &c, "hostile-name", [][]string{argv, {"PING"}, {"ECHO", "one"}}, nil, cs)
+				c.Close()
+				if !okx || ctx.NViolations() >= 4 {
+					return
+				}
+			}
+		}
+	}
+	// (i) reply sizes around the boundaries of the server's write chunks (1 KiB) and read buffer
+	{
+		var sizes []int
+		for k := 1; k <= 9; k++ {
+			for d := -20; d <= 6; d++ {
+				sizes = append(sizes, k*1024+d)
+			}
+		}
+		for _, base := range []int{16384, 65536} {
+			for d := -12; d <= 4; d++ {
+				sizes = append(sizes, base+d)
+			}
+		}
+		for si, n := range sizes {
+			if !ctx.Mine(si) {
+				continue
+			}
+			ctx.SetCurrent(fmt.Sprintf("C12 reply size %d", n))
+			c, err := Dial(srv.port)
+			if err != nil {
+				ctx.Inconclusive("dial")
+				return
+			}
+			val := strings.Repeat("v", n)
+			okx := c12Exchange(ctx, srv, &c, "reply-size", [][]string{{"SET", "size:k", val}, {"GET", "size:k"}, {"PING"}, {"MGET", "size:k", "size:k"}, {"ECHO", val}, {"PING"}}, nil, si)
+			c.Close()
+			if !okx || ctx.NViolations() >= 4 {
+				return
+			}
+		}
+	}
 	// (b)+(c)+(f) pipelines and segmentations with payload checks
-	np := ctx.N(60, 1200)
+	np := ctx.N(400, 1200)
 	for i := 0; i < np; i++ {
 		if !ctx.Mine(i) {
 			continue
@@ -522,12 +584,24 @@ func c12Embedded(ctx *Ctx, srv *c12Server) {
 			{"GET", []string{"GET", k}, func() (string, error) { r, e := s.Get(k); return fmt.Sprintf("%q", []string{r}), e }},
 			{"STRLEN", []string{"STRLEN", k}, func() (string, error) { r, e := s.StrLen(k); return fmt.Sprintf("%q", []string{strconv.Itoa(r)}), e }},
 			{"LRANGE", []string{"LRANGE", k + ":l", "0", "-1"}, func() (string, error) { r, e := s.LRange(k+":l", 0, -1); return fmt.Sprintf("%q", r), e }},
-			{"LLEN", []string{"LLEN", k + ":l"}, func() (string, error) { r, e := s.LLen(k + ":l"); return fmt.Sprintf("%q", []string{strconv.Itoa(r)}), e }},
+			{"LLEN", []string{"LLEN", k + ":l"}, func() (string, error) {
+				r, e := s.LLen(k + ":l")
+				return fmt.Sprintf("%q", []string{strconv.Itoa(r)}), e
+			}},
 			{"LINDEX", []string{"LINDEX", k + ":l", "0"}, func() (string, error) { r, e := s.LIndex(k+":l", 0); return fmt.Sprintf("%q", []string{r}), e }},
 			{"SMEMBERS", []string{"SMEMBERS", k + ":t"}, func() (string, error) { r, e := s.SMembers(k + ":t"); return join(r), e }},
-			{"SCARD", []string{"SCARD", k + ":t"}, func() (string, error) { r, e := s.SCard(k + ":t"); return fmt.Sprintf("%q", []string{strconv.Itoa(r)}), e }},
-			{"HLEN", []string{"HLEN", k + ":h"}, func() (string, error) { r, e := s.HLen(k + ":h"); return fmt.Sprintf("%q", []string{strconv.Itoa(r)}), e }},
-			{"ZCARD", []string{"ZCARD", k + ":z"}, func() (string, error) { r, e := s.ZCard(k + ":z"); return fmt.Sprintf("%q", []string{strconv.Itoa(r)}), e }},
+			{"SCARD", []string{"SCARD", k + ":t"}, func() (string, error) {
+				r, e := s.SCard(k + ":t")
+				return fmt.Sprintf("%q", []string{strconv.Itoa(r)}), e
+			}},
+			{"HLEN", []string{"HLEN", k + ":h"}, func() (string, error) {
+				r, e := s.HLen(k + ":h")
+				return fmt.Sprintf("%q", []string{strconv.Itoa(r)}), e
+			}},
+			{"ZCARD", []string{"ZCARD", k + ":z"}, func() (string, error) {
+				r, e := s.ZCard(k + ":z")
+				return fmt.Sprintf("%q", []string{strconv.Itoa(r)}), e
+			}},
 			{"TYPE", []string{"TYPE", k + ":l"}, func() (string, error) { r, e := s.Type(k + ":l"); return fmt.Sprintf("%q", []string{r}), e }},
 			{"MGET", []string{"MGET", k, "absent-key"}, func() (string, error) { r, e := s.MGet(k, "absent-key"); return fmt.Sprintf("%q", r), e }},
 		}
